@@ -67,6 +67,7 @@ type PbfBlock struct {
 	// damage (reader-detectable inconsistencies inside the block)
 	ShortStrings bool // string table cut to its first entry: every reference points outside it
 	ExtraColumn  bool // parallel columns of different length (way lat longer than refs, one role more than types)
+	PlainNodes   bool // a group of plain (non-dense) Node messages: valid PBF this decoder does not support
 }
 
 type PbfFile struct {
@@ -192,6 +193,10 @@ func pbfPrimitiveBlock(b PbfBlock) []byte {
 	}
 	if b.LonOff != 0 {
 		blk.LonOffset = proto.Int64(int64(b.LonOff))
+	}
+	if b.PlainNodes {
+		id, lat, lon := int64(1), int64(2), int64(3)
+		blk.Primitivegroup = append(blk.Primitivegroup, &pb.PrimitiveGroup{Nodes: []*pb.Node{{Id: &id, Lat: &lat, Lon: &lon}}})
 	}
 	if len(b.Nodes) > 0 {
 		d := &pb.DenseNodes{}
@@ -327,7 +332,7 @@ func pbfNormalize(f *PbfFile) {
 	}
 	for bi := range f.Blocks {
 		b := &f.Blocks[bi]
-		b.ShortStrings, b.ExtraColumn = false, false
+		b.ShortStrings, b.ExtraColumn, b.PlainNodes = false, false, false
 		b.Gran, b.DateGran = pbfAbs(b.Gran)*50, pbfAbs(b.DateGran)*500
 		// ids ascending and distinct per block so that every object is identifiable
 		for i := range b.Nodes {
